@@ -1,2 +1,69 @@
-(* C18 -- undeclared_variables never omits a variable the template reads (stub while building) *)
-From MJ Require Import Common.Base Lang.Syntax Lang.Meta Lang.Interp C18.Old C18.Proofs.
+(* C18 -- undeclared_variables never omits a variable the template reads.
+   Statements only; proofs in MJ.C18.Proofs (tracker facts in C18.Tracker, run-time facts in C18.Runtime).
+
+   Lang/Meta.v mirrors compiler/meta.rs (AssignmentTracker, track_walk, tracker_visit_expr,
+   find_macro_closure) after the C18 fixes; Lang/Interp.v is the reference interpreter, whose state
+   records in [s_asks] every key the render context was asked for (Context::load: frames
+   innermost-out - locals, `loop`, closure, render context - then globals).  The check ties both to
+   the engine on generated programs (tools/props/C18.py). *)
+From MJ Require Import Common.Base Lang.Syntax Lang.Meta Lang.Interp C18.Old C18.Tracker C18.Runtime C18.Proofs.
+
+(* Soundness of the static report: for every program of the core fragment (expressions, if/elif/else,
+   for with filter / else / break / continue, set, set blocks, with, macros with defaults, keyword
+   arguments and caller, call blocks, filter blocks, autoescape), every undefined-behaviour mode,
+   every render context whose values contain no macro objects, and every amount of fuel: every key a
+   completed render asked the context for is in [find_undeclared] (globals such as `range` are asked
+   and reported too).  Stated for renders that finish (the interpreter does not return the lookups of
+   a failed render; failing renders are covered on the implementation by the check).
+   Invariant of the proof (Runtime.Inv): every name the tracker regards as assigned is already
+   reported or bound locally at run time, on every path reaching the program point. *)
+Theorem undeclared_sound : forall (c : cfg) (fuel : nat) (body : list stmt) (s : st),
+  plain_context c = true ->
+  Interp.run c fuel body = Ok s ->
+  forall x, In x (s_asks s) -> In x (find_undeclared body).
+Proof. exact undeclared_sound_proof. Qed.
+
+(* Failing renders, as far as the interpreter exposes them: when the render fails (or stops) inside a
+   later top-level statement, everything the completed statements before it asked for is in the report
+   of the whole template. *)
+Theorem undeclared_sound_prefix : forall (c : cfg) (fuel : nat) (done rest : list stmt) (s : st),
+  plain_context c = true -> Interp.run c fuel done = Ok s ->
+  forall x, In x (s_asks s) -> In x (find_undeclared (done ++ rest)).
+Proof. exact undeclared_sound_prefix_proof. Qed.
+
+(* The part of the argument that concerns find_macro_closure: a macro value is well formed when its
+   closure holds every name the fresh tracker found free in the macro; calling such a macro never asks
+   the render context for anything, whatever its body does. *)
+Theorem macro_call_asks_nothing : forall (c : cfg) fuel esc s mc cl args kwargs v s',
+  plain_context c = true -> sgood s -> mgood (s_clos s) mc cl ->
+  Forall (vgood (s_clos s)) args -> Forall (fun kv => vgood (s_clos s) (snd kv)) kwargs ->
+  call_macro c fuel esc s mc cl args kwargs = Ok (v, s') -> s_asks s' = s_asks s.
+Proof. exact macro_call_asks_nothing_proof. Qed.
+
+(* ... and what Enclose asks for when the macro is declared is reported by the surrounding walk: a name
+   free in the macro (other than `caller`) that is not assigned outside is in the report *)
+Theorem closure_names_reported : forall ps ds body t x,
+  mem x (closure_raw ps ds body) = true -> x <> N_caller -> asgl (t_assigned t) x = false ->
+  mem x (t_out (visit_macro true ps ds body (t_push t))) = true.
+Proof. exact closure_in_context. Qed.
+
+(* The tracker as it was before the fixes (C18/Old.v) is refuted on every construct whose visit order
+   was wrong - {% set x = x %}, {% with x = x %}, {% set x %}{{ x }}{% endset %}, {% macro m(x=x) %},
+   {% macro m(y, x=y) %}, a macro that mentions its own name, {% for x in loop %},
+   {% for x in [1] if loop %}, {% autoescape x %} - and the fixed tracker is not. *)
+Theorem undeclared_refuted_before_fix :
+  forallb (asked_not_reported find_undeclared_old cfg0 50) refutation_programs = true /\
+  forallb (fun p => negb (asked_not_reported find_undeclared cfg0 50 p)) refutation_programs = true.
+Proof. exact refuted_before_fix_proof. Qed.
+
+(* non-vacuity of undeclared_sound: a program with a set, a macro whose default reads the context, a
+   filtered loop and a call block, on a context of plain values, renders and asks five times *)
+Example undeclared_sound_nonvacuous :
+  exists s, Interp.run demo_ctx 60 demo_body = Ok s /\ plain_context demo_ctx = true /\ length (s_asks s) = 5%nat.
+Proof. exact demo_runs. Qed.
+
+Print Assumptions undeclared_sound.
+Print Assumptions undeclared_sound_prefix.
+Print Assumptions macro_call_asks_nothing.
+Print Assumptions closure_names_reported.
+Print Assumptions undeclared_refuted_before_fix.
